@@ -297,6 +297,12 @@ pub fn run(cfg: &J) -> J {
                 bad.push(json!({"rule":"roundtrip","why":w,"ti":ti,"ty":FAMILY[ti],"x":x}));
             }
         };
+        for f in [f64::MIN_POSITIVE, 5e-324, 2.2250738585072014e-308, 1.2345678901234567e-300, 1.7976931348623157e-292, f64::MAX, 1e-7, -2.5e-310, 1e22, 1e23] {
+            long_case(10, f.to_abs(), &mut bad);
+        }
+        for f in [f32::MIN_POSITIVE, 1e-45f32, f32::MAX, 0.1f32, 16777217.0f32] {
+            long_case(9, f.to_abs(), &mut bad);
+        }
         for n in [130usize, 300] {
             long_case(25, (0..n).map(|i| if i % 3 == 0 { String::new() } else { format!("s\u{0}{}", i) }).collect::<Vec<String>>().to_abs(), &mut bad);
             long_case(26, (0..n).map(|i| if i % 5 == 4 { Some(i as i16) } else { None }).collect::<Vec<Option<i16>>>().to_abs(), &mut bad);
